@@ -18,14 +18,22 @@ RULE = ("a case marks a random subset of fields (text, host, integer, boolean, b
         "hex), every sensitive position holds the mask (a one-character mask repeated to the value's length for text, "
         "mask characters only for other types, the mask verbatim otherwise; unset for empty values), every non-"
         "sensitive position equals the unmasked rendering (non-sensitive AES secrets are compared by decrypting), "
-        "mask None changes nothing, documents decode to the masked tree; non-trivial = >= 2 sensitive non-empty "
+        "mask None changes nothing, documents decode to the masked tree; in a fraction of the cases a section / config-"
+        "type field is first offered a configuration built from a second schema of the same layout with other sensitive "
+        "flags (refused or taken over, the declared flags decide), and a small second configuration whose untyped dict / "
+        "list field was assigned the value of a typed dict / list field is rendered with every mask in every format; non-trivial = >= 2 sensitive non-empty "
         "positions at >= 2 depths and >= 1 non-sensitive position; distinct = distinct case content")
-REQUIRED = ("lists_with_equal_items", "sensitive_flags_given_as_other_true_values", "fields_declared_twice_second_time_sensitive", "configurations_held_by_untyped_fields", "renders_after_failed_masked_render", "renders_after_schema_growth", "virtual_documents_scanned", "virtual_renderings_checked", "lists_reassigned_from_own_items", "sensitive_lists_checked", "unmasked_reference_checks", "trees_scanned", "documents_scanned", "sensitive_positions_checked", "nonsensitive_positions_checked",
+REQUIRED = ("foreign_configurations_offered_with_other_flags", "typed_containers_copied_to_untyped_fields", "copied_container_documents_scanned",
+            "lists_with_equal_items", "sensitive_flags_given_as_other_true_values", "fields_declared_twice_second_time_sensitive",
+            "configurations_held_by_untyped_fields", "renders_after_failed_masked_render", "renders_after_schema_growth",
+            "virtual_documents_scanned", "virtual_renderings_checked", "lists_reassigned_from_own_items",
+            "sensitive_lists_checked", "unmasked_reference_checks", "trees_scanned", "documents_scanned", "sensitive_positions_checked", "nonsensitive_positions_checked",
             "mask:none", "mask:empty", "mask:one-char", "mask:multi-char", "sensitive_in_list_items", "sensitive_in_ctype",
             "sensitive_at_depth>=2")
 ASSUMPTIONS = ["the length rule (mask character repeated to the value's length) is asserted for text values only",
                "documents are decoded with the library's codecs (C04)"]
 KINDS = ["s", "h", "n", "b", "by", "sec", "ch", "l"]
+FOREIGN_TARGETS = ["sub.deep", "sub.deep", "t", "sub.t", "sub.deep.t", "plain.t"]
 MASKS = [None, "", "*", "#", "x", "***", "[hidden]", "REDACTED", " "]
 
 
@@ -84,8 +92,25 @@ def generate(rng, ctx):
             for key, rec in it.items():
                 rec[1] = sens[rec[0]]
         layout[lst + "_sens"] = sens
-    return {"layout": layout, "masks": rng.sample(MASKS, 4), "fmts": rng.sample(trees.FORMATS, rng.choice([1, 2, 3])),
+    case = {"layout": layout, "masks": rng.sample(MASKS, 4), "fmts": rng.sample(trees.FORMATS, rng.choice([1, 2, 3])),
             "method": rng.choice(["aes", "xor"]), "truthy_flags": rng.random() < 0.3, "redeclare": rng.random() < 0.3}
+    # a section / config-type field is offered a configuration built from a SECOND schema of the same layout (a schema
+    # factory called twice) whose sensitive flags differ from the declared ones
+    case["foreign"] = None
+    if rng.random() < 0.6:
+        case["foreign"] = {"target": rng.choice(FOREIGN_TARGETS), "mode": rng.choice(["flip", "flip", "plain", "random", "same"]),
+                           "values": _scope(rng), "rflags": {k: rng.random() < 0.5 for k in KINDS}}
+    # the entries of a typed dict / list field carried over to an untyped dict / list field, then masked documents
+    case["copied"] = None
+    if rng.random() < 0.5:
+        nkeys = rng.choice([1, 2, 3, 5])
+        case["copied"] = {
+            "src": rng.choice(["same", "same", "sub", "sub", "other"]), "dst": rng.choice(["root", "sub"]),
+            "vkind": rng.choice(["int", "str"]), "secret": rng.choice(["str", "secure"]),
+            "entries": {"k%d%s" % (i, rng.choice(["", "_x", "cpu"])): rng.randrange(-5, 10**6) for i in range(nkeys)},
+            "toks": [token(rng) for _ in range(5)], "naccounts": rng.choice([0, 1, 2]), "how": rng.choice(["attr", "item", "tree-first"]),
+            "lists": rng.random() < 0.5}
+    return case
 
 
 def abbreviate(case):
@@ -132,7 +157,7 @@ def _fill_schema(cc, schema, scope, method, all_kinds=None):
 
 def run(case, ctx, res):
     cc = ctx.cc
-    lay, method = case["layout"], case["method"]
+    lay, method = dict(case["layout"]), case["method"]
     STYLE.update(flags="truthy" if case.get("truthy_flags") else "bool", redeclare=bool(case.get("redeclare")), n=0)
     if lay.get("equal_items"):
         res.count("lists_with_equal_items")
@@ -152,6 +177,8 @@ def run(case, ctx, res):
         sub_ts = cc.Schema()
         _fill_schema(cc, sub_ts, lay.get(key, {}), method)
         holder.t = cc.make_type(sub_ts, "T%d" % n, module="vf_types")
+        if key == "sub.deep.t":
+            deep_type = holder.t
     root.plain.note = cc.StringField(default="nothing sensitive here")
     item = cc.Schema()
     _fill_schema(cc, item, None, method, {k + "1": (k, lay["items_sens"][k], None) for k in KINDS})
@@ -242,6 +269,10 @@ def run(case, ctx, res):
             else:
                 cfg.dynsec.extra_cfg = held
         res.count("configurations_held_by_untyped_fields")
+    if case.get("foreign"):
+        _offer_foreign(cc, cfg, lay, case["foreign"], method, deep_type, assign, res)
+    if case.get("copied") and not _copied_containers(cc, case["copied"], case["masks"], method, keypath, res):
+        return
     stoks = lay.get("sitems", [])
     cfg.sitems = [{"owner": t, "n": i} for i, t in enumerate(stoks)]
     cfg.sub.sitems = [{"owner": t + "-sub", "n": i} for i, t in enumerate(stoks[:1])]
@@ -437,6 +468,173 @@ def run(case, ctx, res):
     sens_pos = [(p, v) for p, k, s, v in positions if s and _nonempty(v) and k != "b"]
     if len(sens_pos) >= 2 and len({len(p) for p, _v in sens_pos}) >= 2 and any(not s for _p2, _k, s, _v in positions):
         res.nontrivial(case["layout"], case["masks"], case["fmts"])
+
+
+def _offer_foreign(cc, cfg, lay, spec, method, deep_type, assign, res):
+    """A section / a config-type field is assigned a configuration that was built from a second, separately built schema of
+    the same layout (same keys, same field classes) whose sensitive flags differ.  The library may refuse it or take it
+    over; either way the fields keep the sensitivity that the schema of the rendered configuration DECLARES.  `lay` is
+    updated with the values the positions hold afterwards."""
+    target, mode = spec["target"], spec["mode"]
+    declared = lay.get(target, {})
+    fscope = {}
+    for key, (kind, sens, v) in declared.items():
+        rec = spec["values"].get(key)
+        fsens = {"flip": not sens, "plain": False, "same": sens}.get(mode, bool(spec["rflags"].get(kind)))
+        fscope[key] = [kind, fsens, rec[2] if rec else v]
+    fs = cc.Schema()
+    saved = dict(STYLE)
+    STYLE.update(redeclare=False)  # (the second schema declares every key once; the flag style is the case's)
+    try:
+        _fill_schema(cc, fs, fscope, method)
+    finally:
+        n = STYLE["n"]
+        STYLE.update(saved)
+        STYLE["n"] = n
+    if target == "sub.deep":
+        fs.t = deep_type
+    fcfg = fs()
+    assign(fcfg, fscope)
+    if target == "sub.deep":
+        assign(fcfg.t, lay.get("sub.deep.t", {}))
+    holder = cfg
+    names = target.split(".")
+    for name in names[:-1]:
+        holder = getattr(holder, name)
+    res.count("foreign_configurations_offered")
+    if any(fscope[k][1] != declared[k][1] for k in declared):
+        res.count("foreign_configurations_offered_with_other_flags")
+    try:
+        setattr(holder, names[-1], fcfg)
+    except Exception:
+        res.count("foreign_configurations_refused")
+        return
+    res.count("foreign_configurations_taken_over")
+    lay[target] = {key: [kind, declared[key][1], v] for key, (kind, _s, v) in fscope.items()}
+
+
+def _copied_containers(cc, spec, masks, method, keypath, res):
+    """The value of a TYPED dict (list) field is assigned to an UNTYPED dict (list) field - copied between two fields of one
+    configuration, of a section, or of two configurations - and the configuration is rendered with each mask as a tree and
+    as a document in EVERY format: no sensitive value of the rendered configuration in the output, sensitive positions hold
+    the mask, the copied entries and everything else are rendered as without a mask."""
+    toks = spec["toks"]
+    vfield = cc.IntField if spec["vkind"] == "int" else cc.StringField
+    entries = {k: (v if spec["vkind"] == "int" else "v%d" % v) for k, v in spec["entries"].items()}
+    schema = cc.Schema()
+    schema.user = cc.StringField(default="admin")
+    schema.password = cc.StringField(sensitive=True)
+    schema.limits = cc.DictField(cc.StringField(), vfield())
+    schema.extra = cc.DictField()
+    schema.names = cc.ListField(cc.StringField())
+    schema.anylist = cc.ListField()
+    if spec["secret"] == "secure":
+        schema.api.token = cc.SecureField(method=method)
+    else:
+        schema.api.token = cc.StringField(sensitive=True)
+    schema.api.limits = cc.DictField(cc.StringField(), vfield())
+    schema.api.extra = cc.DictField()
+    schema.api.names = cc.ListField(cc.StringField())
+    schema.api.anylist = cc.ListField()
+    acct = cc.Schema()
+    acct.name = cc.StringField()
+    acct.secret = cc.StringField(sensitive=True)
+    schema.accounts = cc.ListField(acct)
+    cfg = cc.Config(schema, key_filename=keypath)
+    other = cc.Config(schema, key_filename=keypath)
+    secrets = []  # (path, text) of the rendered configuration
+    for c, base in ((cfg, 0), (other, 3)):
+        c.password = toks[base % 5] + "-pw"
+        c.api.token = toks[(base + 1) % 5] + "-tok"
+        c.extra = {"note": "x"}
+        c.api.extra = {"note": "y"}
+        c.limits = dict(entries)
+        c.api.limits = dict(entries)
+        c.names = list(entries)
+        c.api.names = list(entries)
+        c.accounts = [{"name": "acct%d" % i, "secret": toks[2] + "-acct%d" % i} for i in range(spec["naccounts"] if c is cfg else 0)]
+    secrets = [(["password"], toks[0] + "-pw"), (["api", "token"], toks[1] + "-tok")]
+    secrets += [(["accounts", i, "secret"], toks[2] + "-acct%d" % i) for i in range(spec["naccounts"])]
+    if spec["how"] == "tree-first":
+        cfg.to_tree(sensitive_mask="*")
+    src = {"same": cfg, "sub": cfg.api, "other": other}[spec["src"]]
+    dst = cfg if spec["dst"] == "root" else cfg.api
+    try:
+        if spec["how"] == "item":
+            dst["extra"] = src["limits"]
+        else:
+            dst.extra = src.limits
+        if spec["lists"]:
+            dst.anylist = src.names
+    except Exception as exc:
+        res.count("copied_containers_refused")
+        return True  # (whether an untyped field accepts the typed value is not this property's matter)
+    res.count("typed_containers_copied_to_untyped_fields")
+    try:
+        plain = cfg.to_tree()
+    except Exception as exc:
+        res.viol("M-mask", "to_tree-raises:copied-container", "to_tree() raised %r after a typed dict was assigned to an untyped dict field" % (exc,))
+        return False
+    want_extra = dict(entries)
+    dpath = ["extra"] if spec["dst"] == "root" else ["api", "extra"]
+    if not eqstar(_dig(plain, dpath), want_extra):
+        res.viol("M-mask", "mask-none-alters:copied-container", "without a mask the copied entries %r at %s are rendered as %r" % (
+            _short(want_extra), _p(dpath), _short(_dig(plain, dpath))))
+        return False
+    plain_paths = [["user"], ["limits"], ["extra"], ["names"], ["anylist"], ["api", "limits"], ["api", "extra"], ["api", "names"], ["api", "anylist"]]
+    plain_paths += [["accounts", i, "name"] for i in range(spec["naccounts"])]
+    for mask in masks:
+        if mask is None:
+            continue
+        try:
+            tree = cfg.to_tree(sensitive_mask=mask)
+        except Exception as exc:
+            res.viol("M-mask", "to_tree-raises:copied-container", "to_tree(sensitive_mask=%r) raised %r" % (mask, exc))
+            return False
+        outputs = [("tree", tree, None)]
+        for fmt in sorted(trees.FORMATS, key=lambda f: f != "pickle"):  # (the reference-following format first)
+            if not trees.in_domain(fmt, plain):
+                continue
+            try:
+                blob = cfg.dumps(fmt, sensitive_mask=mask)
+            except Exception as exc:
+                res.viol("M-mask", "dumps-raises:copied-container:" + fmt, "dumps(%s, sensitive_mask=%r) raised %r after the entries of a "
+                         "typed dict field were assigned to an untyped dict field" % (fmt, mask, exc))
+                return False
+            res.count("copied_container_documents_scanned")
+            for path, text in secrets:
+                hit = find_token(blob, text[:18])
+                if hit:
+                    res.viol("M-leak", "document:copied-container", "%s document rendered with mask %r contains the sensitive value at %s (%s) "
+                             "after the entries of a typed dict field (%s) were assigned to an untyped dict field" % (
+                                 fmt, mask, _p(path), hit, spec["src"]))
+                    return False
+            try:
+                back = cc.ConfigFormat.get(fmt).loads(cfg, blob)
+            except Exception as exc:
+                res.viol("M-mask", "dumps-raises:copied-container:" + fmt, "the %s document rendered with mask %r cannot be read back: %r" % (
+                    fmt, mask, exc))
+                return False
+            outputs.append((fmt, back, blob))
+        for what, out, _blob in outputs:
+            for path, text in secrets:
+                got = _dig(out, path) if _has(out, path) else "<missing>"
+                res.count("copied_container_positions_checked")
+                if find_token_deep(got, text[:18]):
+                    res.viol("M-leak", "unmasked:copied-container", "%s with mask %r shows the sensitive value at %s: %r" % (
+                        what, mask, _p(path), _short(got)))
+                    return False
+                if got != (mask * len(text) if len(mask) == 1 else mask):
+                    res.viol("M-mask", "not-masked:copied-container", "%s: sensitive value at %s is rendered as %r under mask %r" % (
+                        what, _p(path), _short(got), mask))
+                    return False
+            for path in plain_paths:
+                got = _dig(out, path) if _has(out, path) else "<missing>"
+                if not eqstar(got, _dig(plain, path)):
+                    res.viol("M-mask", "nonsensitive-altered:copied-container", "%s with mask %r: %s is rendered as %r, without a mask as %r" % (
+                        what, mask, _p(path), _short(got), _short(_dig(plain, path))))
+                    return False
+    return True
 
 
 def _check_sensitive_lists(res, tree, stoks, mask, what):
